@@ -19,6 +19,8 @@ from abc import ABC, abstractmethod
 from pathlib import Path
 from typing import Callable, TypeVar
 
+import os
+
 from jinja2 import Environment, FileSystemLoader
 from pydantic import BaseModel
 
@@ -35,6 +37,9 @@ from .metadata import MetadataBase
 ConfigModel = TypeVar("ConfigModel", bound=BaseModel)
 ExternalTypeModel = TypeVar("ExternalTypeModel", bound=BaseModel)
 MetadataModel = TypeVar("MetadataModel", bound=BaseModel)
+
+VERIF_UNDEFINED_LOG: list = []  # filled only when PYDJINNI_VERIF=1
+
 
 class Generator(ABC):
     """
@@ -237,6 +242,25 @@ class Generator(ABC):
             comment_start_string=self.template_comment_start_string,
             comment_end_string=self.template_comment_end_string,
         )
+
+        if os.environ.get("PYDJINNI_VERIF") == "1":
+            # verification hook (off unless PYDJINNI_VERIF=1): record every undefined value that a template creates by a
+            # failed attribute look-up on an object, and every undefined value that is written into the output
+            from jinja2 import Undefined
+            from jinja2.utils import missing
+            generator_key = self.key
+
+            class RecordingUndefined(Undefined):
+                def __init__(self, hint=None, obj=missing, name=None, exc=None, **kwargs):
+                    super().__init__(hint=hint, obj=obj, name=name, **kwargs)
+                    if obj is not missing:
+                        VERIF_UNDEFINED_LOG.append(("lookup", generator_key, type(obj).__name__, str(name)))
+
+                def __str__(self):
+                    VERIF_UNDEFINED_LOG.append(("emitted", generator_key, type(self._undefined_obj).__name__, str(self._undefined_name)))
+                    return super().__str__()
+
+            self._jinja_env.undefined = RecordingUndefined
 
         def comment_filter(content: str):
             output = ""
